@@ -13,7 +13,7 @@ WALKER = dict(bin="walker", driver_cmd=["python3", "lib/null_driver.py"], case_s
 
 CONFIG = dict(
 
-    claim="Machine-checked proof over the executable models, in which every accessor returns the REGION of the borrow it hands out: after the validation gate every unchecked header accessor returns a region inside the buffer and aligned for its struct type, with sizes and alignments regenerated from src/image.rs on every run (C01_header_accessors_32/64); for any (rva | va, min_size, align) a slice returned by a file or mapped view lies inside the buffer, has at least min_size bytes and starts at an address that is a multiple of align (C01_slice, C01_read); every typed read on both paths (derva/deref, _copy/_into, _slice, _slice_f/_s, _c_str) returns a region inside the buffer, aligned for the element type, of exactly the stated size (C01_typed_reads); relocation blocks lie inside the directory (C01_reloc_blocks). The directory parsers add their region theorems in their own properties. Tied to /repo by re-running every component correspondence with the buffer placed flush against PROT_NONE guard pages (end and start side, all alignment classes the generators choose) in a debug build with std's UB checks (misaligned pointer dereference, from_raw_parts / get_unchecked preconditions abort the process), by placement assertions on every returned reference, slice and string (inside the buffer or an empty/static constant, aligned for its type), and by a walker over the whole public API on the shipped PE files and their corruptions.",
+    claim="Machine-checked proof over the executable models, in which every accessor returns the REGION of the borrow it hands out: after the validation gate every unchecked header accessor returns a region inside the buffer and aligned for its struct type, with sizes and alignments regenerated from src/image.rs on every run (C01_header_accessors_32/64); for any (rva | va, min_size, align) a slice returned by a file or mapped view lies inside the buffer, has at least min_size bytes and starts at an address that is a multiple of align (C01_slice, C01_read); every typed read on both paths (derva/deref, _copy/_into, _slice, _slice_f/_s, _c_str) returns a region inside the buffer, aligned for the element type, of exactly the stated size (C01_typed_reads); the dword view used by check_sum and rich_structure is aligned and inside (C01_dword_view); relocation blocks lie inside the directory (C01_reloc_blocks); the resource entry array handed out by from_raw_parts lies inside the section and is aligned (C01_resource_entries); UNWIND_INFO with its code array lies inside the slice it was read from (C01_unwind_info). Further region facts of the directory parsers are stated in their own properties (C08 tables, C09 thunk tables, C12, C13 fixed info, C15). Tied to /repo by re-running every component correspondence with the buffer placed flush against PROT_NONE guard pages (end and start side, all alignment classes the generators choose) in a debug build with std's UB checks (misaligned pointer dereference, from_raw_parts / get_unchecked preconditions abort the process), by placement assertions on every returned reference, slice and string (inside the buffer or an empty/static constant, aligned for its type), and by a walker over the whole public API on the shipped PE files and their corruptions.",
     note="Partial by nature: a Coq model cannot exhibit what the hardware does with a bad pointer; that part is observed (SIGSEGV on guard pages, UB-check aborts). Formatters and serializers other than the loops modelled are exercised by the walker only. Trusted: Coq kernel, extraction and glue, tools/gen_layout.py, mmap/mprotect placement in harness/src/lib.rs.",
     extract=[],
     modes=[("guard-end", {"PVH_GUARD": "end"}), ("guard-start", {"PVH_GUARD": "start"})],
